@@ -24,6 +24,9 @@ def main():
             tier = a.split("=")[1]
     st = subprocess.run("git -C /repo status --porcelain", shell=True, capture_output=True, text=True).stdout.strip()
     assert st == "", "/repo is dirty: " + st
+    # evidence files are written by the checks: keep the ones of the unchanged tree
+    EV_BACKUP = "/tmp/evidence_backup_%d" % os.getpid()
+    sh("rm -rf %s && cp -r /verif/evidence %s" % (EV_BACKUP, EV_BACKUP))
     rc, o = sh("git -C /repo apply %s/%s" % (d, patch))
     assert rc == 0, o
     det = meta.get("detection")
@@ -46,6 +49,7 @@ def main():
             print(sid, c, rcc, lines[:1], r.get("what", "")[:200], flush=True)
     finally:
         sh("git -C /repo checkout -- .")
+        sh("cp %s/*.json /verif/evidence/ && rm -rf %s" % (EV_BACKUP, EV_BACKUP))
     meta["detection"] = det
     json.dump(meta, open(d + "/meta.json", "w"), indent=1)
 
